@@ -9,6 +9,16 @@ class AnalysisError(Exception):
     Always ends the run with exit code 2, never with a violation."""
 
 
+class NotAnOffset(AnalysisError):
+    """The user function was called at a point that is provably not `x + (offset independent of x)`: evaluated at two
+    concrete x the difference point - x is not the same.  A rule about evaluation points reports it as a violation;
+    for every other rule it is an analysis error like its base class."""
+
+    def __init__(self, msg, witness):
+        AnalysisError.__init__(self, msg)
+        self.witness = witness
+
+
 PKG = 'numdifftools'
 MODULES = ('core', 'finite_difference', 'extrapolation', 'limits', 'step_generators',
            'multicomplex', 'fornberg', 'nd_scipy')
